@@ -5,6 +5,7 @@ closed / never-seen addresses, address reuse - against a connection-manager mode
 connection (notice + next name), destroy closes it, a later message on the same address is a NEW connection with a new
 name and a fresh object table (its simulated history starts again at wl_display@1a / @2a ...), every line shown equals
 the ground truth of its own connection's history, and no exception escapes any breakpoint's stop()."""
+import re
 from .. import env, gdbsim, wlxml, history, outline, streams
 from ..runner import h64
 
@@ -242,14 +243,48 @@ def judge(ctx, events, model, obs, conns, tier):
     return True
 
 
-def run_one(ctx, rng, cands, spec, tier='A'):
+OBJ_REF = re.compile(r'(unresolved |new )?([A-Za-z_][A-Za-z_0-9]*|\?\?\?)@(\d+)([a-z]*|\?)')
+
+
+def object_refs(text):
+    """the object references of a displayed line, strings blanked: [(marker, type, id, generation)]"""
+    return OBJ_REF.findall(re.sub(r"'(?:[^'\\]|\\.)*'", "''", text))
+
+
+def judge_objects(ctx, events, obs, tier):
+    """C03's view of the same executions: which object every displayed reference names (type, id, generation, resolved or not, and
+    the `destroyed` annotation of a delete_id) - nothing about notices, connection letters, argument names or values"""
+    full = [dict(e, rec=(None if e.get('rec') is None else {k: v for k, v in e['rec'].items()})) for e in events]
+    for step, (ev, ob) in enumerate(zip(events, obs)):
+        if ev['type'] != 'msg':
+            continue
+        ctx.ev()
+        lines = [l for l in ob['lines'] if not l.startswith('Warning: Got message')]
+        msgs = [i for i in (outline.parse_line(l) for l in lines) if i['kind'] == 'msg']
+        if len(msgs) != 1 or ob['exc'] is not None:
+            ctx.count('gdb_mode_events_without_exactly_one_line')
+            continue
+        rec = ev['rec']
+        exp = history.expected_text(rec, ev['side'], ev['name'])
+        want, got = object_refs(exp), object_refs(msgs[0]['text'])
+        if any(a['k'] == 'a' for a in rec['args']):
+            want, got = want[:1], got[:1]
+        ctx.count('gdb_mode_object_references', len(want))
+        if want != got:
+            ctx.violation('gdb-object-refs', '[tier %s] %s.%s on address slot %d: the line refers to %r, the history says %r: %r' % (
+                tier, rec['iface'], rec['name'], ev['slot'], got, want, msgs[0]['text'][:250]), {'step': step, 'tier': tier, 'full_events': full, 'objects_only': True})
+            return False
+    return True
+
+
+def run_one(ctx, rng, cands, spec, tier='A', objects_only=False):
     events, model = gen_sequence(rng, cands, spec)
     try:
         obs, conns = execute_shim(events, rng) if tier == 'A' else execute_gdb(events, rng)
     except Exception as e:
         ctx.inconc('tier %s execution failed: %s: %r' % (tier, type(e).__name__, e))
         return
-    ok = judge(ctx, events, model, obs, conns, tier)
+    ok = judge_objects(ctx, events, obs, tier) if objects_only else judge(ctx, events, model, obs, conns, tier)
     kinds = [('m%d' % e['slot'] + ('!' if e['opened_now'] else '')) if e['type'] == 'msg' else 'd%d:%s' % (e['slot'], e['what']) for e in events]
     ctx.count('sequences' if tier == 'A' else 'tierb_sequences')
     reuse = sum(1 for e in events if e['type'] == 'msg' and e['opened_now'] and e['reuse_of'] is not None)
@@ -290,7 +325,7 @@ def replay(ctx, case):
     if case.get('full_events'):
         events = case['full_events']
         obs, conns = execute_shim(events, ctx.rng) if case.get('tier', 'A') == 'A' else execute_gdb(events, ctx.rng)
-        ok = judge(ctx, events, None, obs, None, case.get('tier', 'A'))
+        ok = judge_objects(ctx, events, obs, case.get('tier', 'A')) if case.get('objects_only') else judge(ctx, events, None, obs, None, case.get('tier', 'A'))
         print('replayed %d events on tier %s: %s' % (len(events), case.get('tier', 'A'), 'no difference from the model' if ok else 'VIOLATION reproduced'))
         return
     for e in case.get('events', []):
